@@ -753,8 +753,7 @@ class DerivationSim(Simulator):
                     {"clause": "HMAC key/data layout", "op": r["op"]},
                     {"op": op, "bad": r["layout_bad"][:2]})
             if unexpected:
-                add("C01/extra-prf-call", {"clause": "unexpected PRF call", "op": r["op"]},
-                    {"op": op, "calls": len(r["calls"])})
+                oos += 1      # an additional HMAC call is not forbidden by the property; it got the real HMAC back
             if r["exc"] is not None:
                 add("C01/refused-valid",
                     {"clause": "valid child refused", "op": r["op"], "exc": r["exc"]},
